@@ -141,7 +141,11 @@ XSmootherGiveRegion ==
 \* ExtrapolatedSmootherTake::extrapolatedSmoothing has the schedule of SmootherTake::smoothing (it relaxes fewer unknowns per line)
 \* F21: without a circle section the innermost nodes belong to the radial lines and couple across the origin to the opposite
 \* line, which the 3-colouring does not separate; the repaired code sweeps sequentially then
-Region == CASE s.op = "residualGive" -> IF "F21" \in FIXED /\ s.nc = 0 /\ ~s.dir THEN <<>> ELSE ResidualRegion
+\* The give ASSEMBLIES (direct-solver matrix, A_sc matrices of the two give smoothers) sweep with the schedule of the give residual;
+\* a cell <<"result", n>> then stands for row n of the assembled matrix (the smoother matrices hold the in-line part of the row only)
+GiveAsmOps == {"directGiveAsm", "smootherGiveAsm", "xsmootherGiveAsm"}
+Region == CASE s.op \in {"residualGive", "directGiveAsm"} -> IF "F21" \in FIXED /\ s.nc = 0 /\ ~s.dir THEN <<>> ELSE ResidualRegion
+            [] s.op \in {"smootherGiveAsm", "xsmootherGiveAsm"} -> ResidualRegion
             [] s.op = "residualTake" -> ResidualTakeRegion
             [] s.op \in {"smootherTake", "xsmootherTake"} -> SmootherRegion
             [] s.op = "smootherGive" -> IF "F19" \in FIXED /\ s.nt % 4 # 0 THEN <<>> ELSE SmootherGiveRegion
@@ -158,7 +162,7 @@ EpochDisjoint == LET reg == Region
                       (l1 <= l2 /\ ep[l1] = ep[l2]) =>
                         \A a \in reg[l1].tasks, b \in reg[l2].tasks : (l1 # l2 \/ a.id # b.id) => ~Conflict(a, b)
 \* every line is worked on exactly once (no line forgotten or assembled twice by the remainder rule)
-AllRadialOnce == s.op = "residualGive" =>
+AllRadialOnce == s.op \in {"residualGive"} \cup GiveAsmOps =>
                    /\ UNION {RadLines(k) : k \in 0..(NumRad - 1)} = 0..(s.nt - 1)
                    /\ \A k1 \in 0..(NumRad - 1), k2 \in 0..(NumRad - 1) : k1 # k2 => RadLines(k1) \cap RadLines(k2) = {}
 AllCirclesOnce == s.op \in {"smootherTake", "xsmootherTake"} =>
@@ -177,7 +181,7 @@ ShapeList == IF "ZSHAPES" \in DOMAIN IOEnv THEN ndJsonDeserialize(IOEnv.ZSHAPES)
 Init == IF ShapeList = <<>>
         THEN \E op \in Ops, nr \in NrSet, nt \in NtSet, nc \in 0..14, dir \in BOOLEAN :
                /\ nc <= nr
-               /\ ((nc < 2 \/ nc > nr - 3) => op \in {"residualGive", "residualTake"})      \* the smoothers need two circles and three radial nodes, the residuals accept any split
+               /\ ((nc < 2 \/ nc > nr - 3) => op \in {"residualGive", "residualTake", "directGiveAsm"})      \* the smoothers need two circles and three radial nodes, the residuals accept any split
                /\ s = [op |-> op, nr |-> nr, nt |-> nt, nc |-> nc, dir |-> dir]
         ELSE \E op \in Ops, k \in 1..Len(ShapeList) :
                s = [op |-> op, nr |-> ShapeList[k].nr, nt |-> ShapeList[k].nt, nc |-> ShapeList[k].nc, dir |-> ShapeList[k].dir # 0]
